@@ -1,4 +1,6 @@
 SPECIFICATION Spec
+CONSTANTS
+  Items = {"field", "kv", "kvs", "md", "roy", "owner", "role"}
 INVARIANT TypeOK
 PROPERTIES Sticky LockedRefusesAll FailureChangesNothing OnlyTheItem
 CHECK_DEADLOCK FALSE
